@@ -103,6 +103,21 @@ class FunctionInfo:
         return out
 
 
+_KNOWN = None
+
+
+def _known_names():
+    """fsa/known_names.json: the module-level functions and methods the rules were written against."""
+    global _KNOWN
+    if _KNOWN is None:
+        import json
+        try:
+            _KNOWN = json.loads((Path(__file__).resolve().parent / 'known_names.json').read_text())['modules']
+        except OSError:
+            _KNOWN = {}
+    return _KNOWN
+
+
 class Repo:
     """All modules of the `fsic` package in the tree under analysis."""
 
@@ -131,9 +146,12 @@ class Repo:
                 tree = ast.parse(src, filename=str(path))
             except SyntaxError as e:  # the tree under analysis must parse
                 raise Unsupported(f'{rel}: does not parse: {e}') from e
-            from .inline import expand_keyword_dicts, inline_local_procedures
+            from .inline import expand_keyword_dicts, inline_local_procedures, inline_unknown_functions
             inline_local_procedures(tree)
             expand_keyword_dicts(tree)
+            kn = _known_names().get(str(rel))
+            if kn is not None:
+                inline_unknown_functions(tree, set(kn['functions']), {k: set(v) for k, v in kn['classes'].items()})
             mod = Module(
                 name=name,
                 path=path,
